@@ -1,6 +1,7 @@
 package rules
 
 import (
+	"os"
 	"fmt"
 	"go/token"
 	"go/types"
@@ -33,6 +34,14 @@ func c12(c *Ctx) {
 	{
 		bad, sites := c.asyncBatchOwned(twPkg)
 		c.R.Check(len(bad) == 0 && sites >= 1, "C12.R9", twPkg+"#async-batches", "a slice handed to a function that reads it from a goroutine it starts (runTasks) is built from nil/make by that call and not kept by the caller: the next tick cannot overwrite timers the previous tick's goroutine has not fired yet", "-", fmt.Sprintf("%d hand-off sites; %s", sites, strings.Join(bad, "; ")), bad, sites)
+	}
+	if os.Getenv("GZV_ASYNC_SCAN") != "" {
+		for _, pk := range c.P.Pkgs {
+			bad, sites := c.asyncBatchOwned(strings.TrimPrefix(pk.PkgPath, mod))
+			if sites > 0 {
+				fmt.Println("ASYNC-SCAN", pk.PkgPath, sites, bad)
+			}
+		}
 	}
 	// the in-memory cache is the wheel's main client: it must move/set the key's timer with the expiry of this call
 	c16cacheAs(c, "C12.R7", true)
